@@ -46,6 +46,15 @@ def f32bits(x):
         return 0x7f800000 if x > 0 else 0xff800000
 
 
+def valid_key(k):
+    """not empty, at most 65535 bytes; `x@N` stands for N letters x"""
+    if k == "":
+        return False
+    if k.startswith("x@") and k[2:].isdigit():
+        return int(k[2:]) <= 65535
+    return len(k.encode()) <= 65535
+
+
 def ts_valid(tok):
     """a metadata timestamp counts as supplied iff it is a positive time"""
     if tok == "":
@@ -197,6 +206,9 @@ class Oracle:
             return None, None
         ex = self.exists()
         nothing = lambda: None
+        # the requests that can create a record refuse a key the file cannot hold (whole request)
+        if v in ("set", "inc", "push") and any(not valid_key(k) for k in keys):
+            return "err:InvalidArgument", nothing
         if v == "set":
             create, over = f[1][0] == "1", f[1][1] == "1"
             if not create and not over:
